@@ -368,7 +368,9 @@ where
         .par_iter()
         .map(|u| {
             let mut acc = Acc::new();
-            f(cx, u, &mut acc);
+            if let Err(p) = catch_unwind(AssertUnwindSafe(|| f(cx, u, &mut acc))) {
+                acc.internal_errors.push(format!("harness panic while enumerating phase {phase}: {}", crate::panics::payload_msg(&p)));
+            }
             acc
         })
         .collect();
